@@ -20,6 +20,12 @@ func printNode returns (err)
     invariant @inv node == old(node) && output == old(output) && level == old(level) && collapseLast == old(collapseLast) && BufStep(payload(output))
     invariant @keys forall p int :: {#coll[p]} 0 <= p && p < len(#coll) ==> #coll[p] in node.Children
   }
+  // --collapse-last: a joined "parent/child" line replaces the subtree only if that subtree is exactly one leaf
+  // (the second Fprintf of the loop body is the joined line, after which the subtree is skipped): the child has exactly
+  // one child, and a child of it is a leaf - no branch is dropped
+  ghost before call 2 Fprintf {
+    assert @join-only-sole-leaf [C03] len(child.Children) == 1 && (exists k string :: k in child.Children && len(mapget(child.Children, k).Children) == 0)
+  }
 
 // getJump returns the names along a sole-branch chain - but only if the chain ends in a leaf: a non-empty jump
 // means the whole subtree below the node IS that chain, so printing the joined path and skipping the subtree drops
@@ -179,7 +185,7 @@ func Balance returns (err)
   props C03 C08 C09 C10 C17
   requires @sink bc.ReporterConfig.Output != nil && !typeis(bc.ReporterConfig.Output, "*bufio.Writer") && !typeis(bc.ReporterConfig.Output, "*encoding/csv.Writer") && TreeInv()
   modifies *
-  modifies ghost(cbLen, cbErr, cbNode, cbStop, cbRet, cbLineNo, cbLine, cbHeader, cbElems, cbNElems, scRd, scPos, privLo, evOf, accKey, accP, accN, accH, bufSink, bufSticky, sinkFailed, sinkPend, prLen, prSink, prArg, prArgs, tnodes, tdepth, tmax, tmapOf, jlen)
+  modifies ghost(cbLen, cbErr, cbNode, cbStop, cbRet, cbLineNo, cbLine, cbHeader, cbElems, cbNElems, scRd, scPos, privLo, evOf, accKey, accP, accN, accH, bufSink, bufSticky, sinkFailed, sinkPend, prLen, prSink, prArg, prArgs, csvLen, csvW, csvN, csvRow, tnodes, tdepth, tmax, tmapOf, jlen)
   let out := payload(bc.ReporterConfig.Output)
   let lrd := payload(logStream)
   let drd := payload(dbStream)
